@@ -177,7 +177,9 @@ def build_stmt(d):
             return Assign("arr_" + d["id"], (var(loops[-1][0]),), var(loops[0][0]) + 1, loops=loops, **kw)
         return Assign("v_" + d["id"], (), var("<state>y") + 1, **kw)
     if k == "call":
-        return AssignFunctionCall(("w_" + d["id"],), "<func>f", (var("<t>"),), **kw)
+        # (every other call is made for its effect only: no assignee)
+        asg = () if sum(map(ord, d["id"])) % 2 else ("w_" + d["id"],)
+        return AssignFunctionCall(asg, "<func>f", (var("<t>"),), **kw)
     if k == "yield":
         return YieldState(expression=var("<state>y"), component_id="y", time=var("<t>"), time_id="fin", **kw)
     if k == "fail":
